@@ -56,12 +56,16 @@ func genPlain(t *rapid.T) PlainCase {
 	case 1:
 		c.Parity = "even"
 	}
-	complexCoeffs := !c.Cheb && rapid.IntRange(0, 2).Draw(t, "complexCoeffs") == 0
+	// coefficient field: real, purely imaginary or mixed complex, in both bases
+	coeffKind := []string{"real", "real", "mixed", "imag", "mixed", "real"}[rapid.IntRange(0, 5).Draw(t, "coeffKind")]
 	for k := 0; k <= deg; k++ {
 		re := float64(rapid.IntRange(-1024, 1024).Draw(t, fmt.Sprintf("c%d", k))) / 1024
 		im := 0.0
-		if complexCoeffs {
+		switch coeffKind {
+		case "mixed":
 			im = float64(rapid.IntRange(-1024, 1024).Draw(t, fmt.Sprintf("ci%d", k))) / 1024
+		case "imag":
+			re, im = 0, re
 		}
 		if (c.Parity == "odd" && k&1 == 0) || (c.Parity == "even" && k&1 == 1) {
 			re, im = 0, 0
@@ -125,6 +129,13 @@ func runPlain(c PlainCase, rec *h.Rec) error {
 	setParity(&pol, c.Parity)
 	deg := len(cs) - 1
 	rec.Classf("basis=%v", map[bool]string{false: "monomial", true: "chebyshev"}[c.Cheb])
+	cplx := false
+	for _, v := range c.Coeffs {
+		cplx = cplx || v[1] != 0
+	}
+	if cplx {
+		rec.Classf("coeffs=complex:%v", map[bool]string{false: "monomial", true: "chebyshev"}[c.Cheb])
+	}
 	rec.Classf("parity=%s", c.Parity)
 	if c.Cheb && a+b != 0 {
 		rec.Class("interval-asymmetric")
@@ -253,7 +264,7 @@ func runPlain(c PlainCase, rec *h.Rec) error {
 	}
 
 	if deg >= 2 && (c.Parity != "general" || c.N != (deg+1)>>1 || (c.Cheb && a+b != 0)) {
-		rec.NonTrivial(fmt.Sprintf("plain|cheb=%v|asym=%v|deg=%d|n-deg/2=%d|%s|f=%s|nodes=%d", c.Cheb, c.Cheb && a+b != 0, deg, c.N-(deg+1)>>1, c.Parity, c.Func, n/8))
+		rec.NonTrivial(fmt.Sprintf("plain|cplx=%v|cheb=%v|asym=%v|deg=%d|n-deg/2=%d|%s|f=%s|nodes=%d", cplx, c.Cheb, c.Cheb && a+b != 0, deg, c.N-(deg+1)>>1, c.Parity, c.Func, n/8))
 	}
 	return nil
 }
